@@ -292,6 +292,9 @@ func (f *TermFactory) Bin(op string, a, b *Term) *Term {
 			return f.BV(v, a.w)
 		}
 	}
+	if r := f.binScaled(op, a, b); r != nil {
+		return r // model_zz_grpa_scaled.go
+	}
 	switch op {
 	case "bvadd", "bvor", "bvxor":
 		if a.isConst() && a.val == 0 {
@@ -337,6 +340,9 @@ func (f *TermFactory) Cmp(op string, a, b *Term) *Term {
 	}
 	if a == b {
 		return f.Bool(op == "bvule" || op == "bvsle")
+	}
+	if r := f.cmpScaled(op, a, b); r != nil {
+		return r // model_zz_grpa_scaled.go
 	}
 	return f.mk(&Term{op: op, args: []*Term{a, b}})
 }
